@@ -47,6 +47,9 @@ THOROUGH = {
 INFEASIBLE = {
     ("float", "parse"): "dec2flt on a symbolic string: CBMC out of memory (12 GB) after 94 s",
     ("int", "pow"): "64-bit symbolic multiply chain (exponentiation by squaring): no verdict in 9 min",
+    ("char", "is_alphabetic"): "core::unicode skip_search table walk (binary search + run loop up to 1519 entries): unwinding bound out of reach; std code, specified panic-free",
+    ("char", "is_alphanumeric"): "core::unicode skip_search table walk: unwinding bound out of reach; std code, specified panic-free",
+    ("char", "is_numeric"): "core::unicode skip_search table walk: unwinding bound out of reach; std code, specified panic-free",
 }
 # per-entry unwind bound (default 6)
 UNWIND = {("byte", "pow"): 34}
